@@ -24,6 +24,10 @@ pub struct PbDfs {
     pub iterations: usize,
     /// largest number of preemptions in any explored schedule
     pub max_used: usize,
+    /// (shared) largest number of scheduling decisions in one execution
+    probe: Option<std::sync::Arc<std::sync::atomic::AtomicUsize>>,
+    /// stop after this many executions (None = run to completion)
+    max_iterations: Option<usize>,
 }
 
 impl PbDfs {
@@ -35,7 +39,16 @@ impl PbDfs {
             used: 0,
             iterations: 0,
             max_used: 0,
+            probe: None,
+            max_iterations: None,
         }
+    }
+    /// a single execution (the default schedule) that records its number of scheduling decisions
+    pub fn probe(steps: std::sync::Arc<std::sync::atomic::AtomicUsize>) -> Self {
+        let mut s = Self::new(0);
+        s.probe = Some(steps);
+        s.max_iterations = Some(1);
+        s
     }
     fn has_more(&self, from: usize) -> bool {
         self.levels[from.min(self.levels.len())..].iter().any(|l| l.choice + 1 < l.allowed)
@@ -44,7 +57,13 @@ impl PbDfs {
 
 impl Scheduler for PbDfs {
     fn new_execution(&mut self) -> Option<Schedule> {
+        if let Some(p) = &self.probe {
+            p.fetch_max(self.steps, std::sync::atomic::Ordering::SeqCst);
+        }
         if self.iterations > 0 && !self.has_more(0) {
+            return None;
+        }
+        if self.max_iterations.map(|m| self.iterations >= m).unwrap_or(false) {
             return None;
         }
         self.iterations += 1;
